@@ -1798,12 +1798,18 @@ def type_grid_histories(rng, outside: bool = False):
         yield h, A, "node-types"
 
 
-def run_both_pieces(hists, corr: Corr, ctx, view: str, what: str, workers: int = 6):
-    """`run_both` with the model side cut at history boundaries into pieces that run in parallel driver processes."""
-    impl = gw.run_impl_many(hists)
+def run_both_pieces(hists, corr: Corr, ctx, view: str, what: str, workers: int = 6, with_model=None):
+    """`run_both` with the model side cut at history boundaries into pieces that run in parallel driver processes.
+    `with_model` (one bool per history): which runs are also put through the model (default: all); the
+    implementation traces of all histories are returned."""
+    impl_all = gw.run_impl_many(hists)
     if not ctx.model_ok or not hists:
-        return impl
+        return impl_all
     from concurrent.futures import ThreadPoolExecutor
+    impl = impl_all
+    if with_model is not None:
+        impl = [io for io, m in zip(impl_all, with_model) if m]
+        hists = [h for h, m in zip(hists, with_model) if m]
     per_hist = [gw.model_lines(h) for h in hists]
     total = sum(len(x) for x in per_hist)
     target = max(1, -(-total // workers))
@@ -1828,7 +1834,7 @@ def run_both_pieces(hists, corr: Corr, ctx, view: str, what: str, workers: int =
                 short = Hist(h.version, h.metric, h.preload, h.ops[:i])
                 corr.disagree(what, {"history": short.to_json(), "step": i, "view": view, "impl": list(a), "model": list(bb)})
                 break
-    return impl
+    return impl_all
 
 
 def _c19_type_grid(corr: Corr, ctx) -> None:
@@ -1837,13 +1843,19 @@ def _c19_type_grid(corr: Corr, ctx) -> None:
     vs = lib.VERSIONS
     rounds = 1 if ctx.tier == "quick" else 6
     base = [x for _ in range(rounds) for x in type_grid_histories(rng)]
-    hists, index = [], []
-    for (h, A, label) in base:
+    hists, index, with_model = [], [], []
+    for k, (h, A, label) in enumerate(base):
         run_under = vs[vs.index(A[0]):]
         index.append((len(hists), run_under))
         hists += [Hist(v, h.metric, h.preload, h.ops) for v in run_under]
+        # the pair oracle judges every run; the quick tier puts the run under the oldest version and under one of the
+        # newer ones (rotating) through the model as well, the thorough tier all of them
+        with_model += [ctx.tier != "quick" or j == 0 or j == 1 + k % (len(run_under) - 1) for j in range(len(run_under))]
     outside = [Hist(A[0], h.metric, h.preload, h.ops) for h, A, _ in type_grid_histories(rng, outside=True)]
-    impl = run_both_pieces(hists + outside, corr, ctx, "full", "full view (type grid)")
+    with_model += [True] * len(outside)
+    corr.count("grid:runs", len(hists))
+    corr.count("grid:runs also compared with the model", sum(with_model))
+    impl = run_both_pieces(hists + outside, corr, ctx, "full", "full view (type grid)", with_model=with_model)
     shrunk = 0
     for (h, A, label), (first, run_under) in zip(base, index):
         cells = sum(1 for op in h.ops if op[0] == "recv" and op[1].split(";")[2] == "1")
@@ -1871,8 +1883,9 @@ def _c19_type_grid(corr: Corr, ctx) -> None:
         corr.case(("grid-outside", h.version), True, None)
         corr.count("grid:types outside the version's tables (model comparison only)")
     corr.notes.append("type grid: the cells (child type x set/req type) are computed from the extracted tables of the tree under "
-                      "check; they are expressible as operations of the Lean model's driver, so every run is also compared with the "
-                      "model (full view); the histories with child / value types OUTSIDE a version's tables are outside the "
+                      "check; they are expressible as operations of the Lean model's driver, so the runs are also compared with the "
+                      "model (full view; quick tier: the run under the oldest version and one newer version per history, thorough "
+                      "tier: every run); the histories with child / value types OUTSIDE a version's tables are outside the "
                       "property's statement and are compared with the model only, not judged by the pair oracle")
 
 
